@@ -15,6 +15,7 @@ import (
 
 	"github.com/ipni/go-libipni/dhash"
 	client "github.com/ipni/go-libipni/find/client"
+	oldclient "github.com/ipni/go-libipni/find/client/http"
 	"github.com/ipni/go-libipni/find/model"
 	"github.com/libp2p/go-libp2p/core/peer"
 	b58 "github.com/mr-tron/base58/base58"
@@ -649,6 +650,14 @@ func checkFind(r *vp.Recorder, thorough bool) {
 		}
 	}
 	checkFindHTTP(r, "find-http", mhs, recs, unknown)
+	// the same index read by clients built from every combination of the
+	// constructor options that say where provider information comes from: a
+	// providers URL of its own (knowing every provider, or only the first),
+	// metadata-only (provider information is then not consulted at all, whatever
+	// else is configured), in both option orders, and the deprecated wrapper
+	for _, cfg := range findHTTPConfigs {
+		checkFindHTTPCfg(r, "find-http|options="+cfg, cfg, mhs, recs, unknown)
+	}
 	// the same over HTTP with records at the size limits: metadata of every
 	// length around the 1 KiB maximum (and some below; never empty: metadata starts with a protocol ID), context IDs empty and
 	// of the maximal 64 bytes, three records per index
@@ -747,6 +756,17 @@ func checkHostile(r *vp.Recorder, key string, st *memStore, cl *client.DHashClie
 // checkFindHTTP drives the same workflow through the HTTP dhstore client and
 // the provider cache over the in-memory network.
 func checkFindHTTP(r *vp.Recorder, key string, mhs []multihash.Multihash, recs []record, unknown multihash.Multihash) {
+	checkFindHTTPCfg(r, key, "", mhs, recs, unknown)
+}
+
+var findHTTPConfigs = []string{
+	"metadata-only", "providers-url-full", "providers-url-full,preload",
+	"metadata-only,providers-url-partial", "providers-url-partial,metadata-only",
+	"metadata-only,providers-url-unreachable", "metadata-only,providers-url-partial,preload",
+	"legacy-wrapper-full", "legacy-wrapper-partial,metadata-only",
+}
+
+func checkFindHTTPCfg(r *vp.Recorder, key, cfg string, mhs []multihash.Multihash, recs []record, unknown multihash.Multihash) {
 	if !r.Mine(key) {
 		return
 	}
@@ -807,7 +827,67 @@ func checkFindHTTP(r *vp.Recorder, key string, mhs []multihash.Multihash, recs [
 	})
 	stop := n.Serve("dhstore.test:80", mux)
 	defer stop()
-	cl, err := client.NewDHashClient(client.WithDHStoreURL("http://dhstore.test:80"), client.WithClient(n.Client()))
+	// a providers endpoint of its own: "full" knows every provider, "partial"
+	// only the first record's
+	for _, kind := range []string{"full", "partial"} {
+		kind := kind
+		known := func(id string) (*model.ProviderInfo, bool) {
+			p, ok := provs[id]
+			if kind == "partial" && id != recs[0].prov.ID.String() {
+				return nil, false
+			}
+			return p, ok
+		}
+		pmux := http.NewServeMux()
+		pmux.HandleFunc("/providers", func(w http.ResponseWriter, req *http.Request) {
+			var l []*model.ProviderInfo
+			for id := range provs {
+				if p, ok := known(id); ok {
+					l = append(l, p)
+				}
+			}
+			json.NewEncoder(w).Encode(l)
+		})
+		pmux.HandleFunc("/providers/", func(w http.ResponseWriter, req *http.Request) {
+			p, ok := known(strings.TrimPrefix(req.URL.Path, "/providers/"))
+			if !ok {
+				http.Error(w, "not found", 404)
+				return
+			}
+			json.NewEncoder(w).Encode(p)
+		})
+		pstop := n.Serve("providers-"+kind+".test:80", pmux)
+		defer pstop()
+	}
+	const dhURL = "http://dhstore.test:80"
+	copts := []client.Option{client.WithClient(n.Client())}
+	legacy := ""
+	for _, o := range strings.Split(cfg, ",") {
+		switch o {
+		case "":
+			copts = append(copts, client.WithDHStoreURL(dhURL))
+		case "metadata-only":
+			copts = append(copts, client.WithMetadataOnly(true))
+		case "preload":
+			copts = append(copts, client.WithPcachePreload(true))
+		case "providers-url-full", "providers-url-partial", "providers-url-unreachable":
+			copts = append(copts, client.WithProvidersURL("http://"+strings.Replace(o, "providers-url", "providers", 1)+".test:80"))
+		case "legacy-wrapper-full", "legacy-wrapper-partial":
+			legacy = "http://" + strings.Replace(o, "legacy-wrapper", "providers", 1) + ".test:80"
+		default:
+			panic("unknown client configuration " + o)
+		}
+	}
+	var cl *client.DHashClient
+	var err error
+	if legacy != "" {
+		cl, err = oldclient.NewDHashClient(dhURL, legacy, copts...)
+	} else {
+		if cfg != "" {
+			copts = append(copts, client.WithDHStoreURL(dhURL))
+		}
+		cl, err = client.NewDHashClient(copts...)
+	}
 	if err != nil {
 		r.Violation("find-http:setup", key, err.Error(), nil)
 		return
